@@ -122,6 +122,14 @@ CHECKS["C19"] = dict(
     design_ref="§2 C19",
 )
 
+CHECKS["C09"] = dict(
+    engine="bfs+sched",
+    technique="explicit-state BFS over wait declarations / status steps on both orchestrators against a set-of-edges reference wait graph (limit queries in every state) + whole-runner simulation of every call tree up to depth 2 / fan-out 2 on the real ThreadRunner under the controlled scheduler (default, round-robin, all 1-deviation schedules for a core)",
+    text="Wait graph: BFS to depth 5 over wait(x,[y]) / wait(x,[y,z]) / status steps REGISTERED->PENDING->RUNNING->SUCCESS on 3 (4) ids; in every state get_blocking_invocations(n), n in {0,1,2,10}, must be a duplicate-free subset of {waited on, not final, not itself waiting, runnable} of size min(n, |set|), and no edge to a finished invocation remains. Trees: all 41 call trees of depth <= 2, fan-out <= 2 (single .result and group .results) run by ThreadRunner.run() with 1 and 2 slots on memory and SQLite in virtual time (loop thread, task threads and client are scheduler threads) under the default and the round-robin schedule; every schedule with <= 1 deviation for 6 core trees (thorough: all trees, both backends): the root must become final with the right value before the 60 s virtual horizon, no deadlock, every body exactly once.",
+    note="Which subset is returned above the limit is unspecified; waits are only declared on non-final invocations; outgoing edges of a finished waiter are outside the alphabet. Fair randomised schedules replaced by the three exhaustive schedule sets. One spin iteration of the wait loop = sleep(10 ms) virtual.",
+    design_ref="§2 C09",
+)
+
 NOT_YET = "check not built yet in this session (planned, see DESIGN.md §2)"
 
 
